@@ -70,13 +70,19 @@ def run_option(cfg, in_farm=True):
 
         def populate(self, *a, **k):
             CUR["counters"]["latent_batches"] = 0
+            CUR["counters"]["latent_points"] = 0
             CUR["counters"]["populations"] += 1
             return o_pop(self, *a, **k)
 
         def draw_latent_prior(self, n):
             c = CUR["counters"]
             c["latent_batches"] += 1
-            if c["latent_batches"] > BUDGETS["latent_batches_per_population"]:
+            c["latent_points"] = c.get("latent_points", 0) + int(n)
+            if getattr(self, "accumulate_weights", False):
+                # nessai bounds this mode itself: populate() stops after max_samples (1e6) proposed points with a warning and a short pool -- slow, but bounded
+                if c["latent_points"] > 1_000_000 + 2 * int(n):
+                    over("latent_points_per_population_accumulate_mode", c["latent_points"])
+            elif c["latent_batches"] > BUDGETS["latent_batches_per_population"]:
                 over("latent_batches_per_population", c["latent_batches"])
             return o_lat(self, n)
 
